@@ -563,17 +563,42 @@ func (s *MutableState) SetNode(ctx context.Context, existingNode, node *node.Nod
 
 	// Update indices mapping various keys to nodes.
 
-	// Consensus key.
-	if existingNode != nil && !existingNode.Consensus.ID.Equal(node.Consensus.ID) {
-		// Remove old consensus address mapping if it has changed.
-		address := []byte(tmcrypto.PublicKeyToCometBFT(&existingNode.Consensus.ID).Address())
-		if err = s.ms.Remove(ctx, nodeByConsAddressKeyFmt.Encode(address)); err != nil {
-			return abciAPI.UnavailableStateError(err)
+	// First remove the mappings of all keys that have changed and only then insert the mappings of
+	// the current keys. Otherwise a key that moves from one role to another (e.g. a node exchanging
+	// its P2P and TLS keys) would have its new mapping removed again when the old mapping of the
+	// other role is cleaned up.
+	if existingNode != nil {
+		if !existingNode.Consensus.ID.Equal(node.Consensus.ID) {
+			// Remove old consensus address mapping if it has changed.
+			address := []byte(tmcrypto.PublicKeyToCometBFT(&existingNode.Consensus.ID).Address())
+			if err = s.ms.Remove(ctx, nodeByConsAddressKeyFmt.Encode(address)); err != nil {
+				return abciAPI.UnavailableStateError(err)
+			}
+			if err = s.ms.Remove(ctx, keyMapKeyFmt.Encode(&existingNode.Consensus.ID)); err != nil {
+				return abciAPI.UnavailableStateError(err)
+			}
 		}
-		if err = s.ms.Remove(ctx, keyMapKeyFmt.Encode(&existingNode.Consensus.ID)); err != nil {
-			return abciAPI.UnavailableStateError(err)
+		// Remove old P2P key mapping if it has changed.
+		if !existingNode.P2P.ID.Equal(node.P2P.ID) {
+			if err = s.ms.Remove(ctx, keyMapKeyFmt.Encode(&existingNode.P2P.ID)); err != nil {
+				return abciAPI.UnavailableStateError(err)
+			}
+		}
+		// Remove old VRF key if it has changed.
+		if !existingNode.VRF.ID.Equal(node.VRF.ID) {
+			if err = s.ms.Remove(ctx, keyMapKeyFmt.Encode(&existingNode.VRF.ID)); err != nil {
+				return abciAPI.UnavailableStateError(err)
+			}
+		}
+		// Remove old TLS key mapping if it has changed.
+		if !existingNode.TLS.PubKey.Equal(node.TLS.PubKey) {
+			if err = s.ms.Remove(ctx, keyMapKeyFmt.Encode(&existingNode.TLS.PubKey)); err != nil {
+				return abciAPI.UnavailableStateError(err)
+			}
 		}
 	}
+
+	// Consensus key.
 	address := []byte(tmcrypto.PublicKeyToCometBFT(&node.Consensus.ID).Address())
 	if err = s.ms.Insert(ctx, nodeByConsAddressKeyFmt.Encode(address), rawNodeID); err != nil {
 		return abciAPI.UnavailableStateError(err)
@@ -583,34 +608,16 @@ func (s *MutableState) SetNode(ctx context.Context, existingNode, node *node.Nod
 	}
 
 	// Committee P2P key.
-	if existingNode != nil && !existingNode.P2P.ID.Equal(node.P2P.ID) {
-		// Remove old P2P key mapping if it has changed.
-		if err = s.ms.Remove(ctx, keyMapKeyFmt.Encode(&existingNode.P2P.ID)); err != nil {
-			return abciAPI.UnavailableStateError(err)
-		}
-	}
 	if err = s.ms.Insert(ctx, keyMapKeyFmt.Encode(&node.P2P.ID), rawNodeID); err != nil {
 		return abciAPI.UnavailableStateError(err)
 	}
 
 	// VRF key.
-	if existingNode != nil && !existingNode.VRF.ID.Equal(node.VRF.ID) {
-		// Remove old VRF key if it has changed.
-		if err = s.ms.Remove(ctx, keyMapKeyFmt.Encode(&existingNode.VRF.ID)); err != nil {
-			return abciAPI.UnavailableStateError(err)
-		}
-	}
 	if err = s.ms.Insert(ctx, keyMapKeyFmt.Encode(&node.VRF.ID), rawNodeID); err != nil {
 		return abciAPI.UnavailableStateError(err)
 	}
 
 	// Committee TLS key.
-	if existingNode != nil && !existingNode.TLS.PubKey.Equal(node.TLS.PubKey) {
-		// Remove old TLS key mapping if it has changed.
-		if err = s.ms.Remove(ctx, keyMapKeyFmt.Encode(&existingNode.TLS.PubKey)); err != nil {
-			return abciAPI.UnavailableStateError(err)
-		}
-	}
 	if err = s.ms.Insert(ctx, keyMapKeyFmt.Encode(&node.TLS.PubKey), rawNodeID); err != nil {
 		return abciAPI.UnavailableStateError(err)
 	}
